@@ -280,7 +280,15 @@ class CaseTimeout(Exception):
     pass
 
 
+# watchdog hits in THIS worker process.  A tree on which the implementation hangs on thousands of inputs would cost
+# (cases x watchdog) of CPU; after TIMEOUT_BUDGET hits the worker stops evaluating further cases (they are counted as
+# skipped in the evidence).  The verdict is not affected: every hit is already a violation with its input.
+_TIMEOUTS = [0]
+TIMEOUT_BUDGET = 4
+
+
 def _alarm(signum, frame):
+    _TIMEOUTS[0] += 1
     raise CaseTimeout()
 
 
@@ -363,6 +371,10 @@ def _worker(args):
            'stats': {}, 'known': []}
     impl = []
     for case in chunk:
+        if _TIMEOUTS[0] >= TIMEOUT_BUDGET:
+            impl.append({'obs': 'skipped', 'violation': None, 'nontrivial': False, 'weight': 0, 'skipped': True,
+                         'tags': ['skipped-after-repeated-timeouts']})
+            continue
         # every fifth case (chosen by content) runs with DEBUG logging switched on for cardutil, as the tools' --debug
         # option does: code behind `isEnabledFor(DEBUG)` / debug f-strings must not change any result
         key = hashlib.blake2b(json.dumps(case, sort_keys=True, default=str).encode(), digest_size=4).digest()
@@ -392,6 +404,9 @@ def _worker(args):
     lines = []
     line_errors = {}
     for i, c in enumerate(chunk):
+        if impl[i].get('skipped'):
+            lines.append(None)
+            continue
         try:
             lines.append(mod.model_line(c))
         except Exception as ex:  # noqa
